@@ -23,7 +23,7 @@ ANCHORS = ["coxeter.shapes.polygon:Polygon.is_inside", "coxeter.shapes.circle:Ci
            "coxeter.shapes.ellipse:Ellipse.is_inside"]
 REQUIRED_MONITORS = ["Polygon.is_inside", "Circle.is_inside", "Ellipse.is_inside", "batch-vs-single"]
 REQUIRED_CLASSES = ["Polygon:cw", "Polygon:ccw", "Polygon:tilted", "Polygon:(N,2)", "Circle", "Ellipse:a<b", "Ellipse:a>b",
-                    "Ellipse:a=b", "quadrant:--", "history:aged-object", "curved:extreme-units"]
+                    "Ellipse:a=b", "quadrant:--", "history:aged-object", "curved:extreme-units", "polygon:far-from-origin"]
 
 
 def ncases(tier):
@@ -123,9 +123,11 @@ def run_case(i, rng, rec, tier, state):
     if aged:
         rec.cls("history:aged-object")
     if which == "Polygon":
-        c = gen.polygon_case(rng)
+        c = gen.polygon_case(rng, far_frac=0.05)
         if c.get("straight_corner") is not None:
             rec.cls("polygon:straight-corner" + (":first-three-collinear" if c["straight_corner"] == 1 else ""))
+        if c["far"]:
+            rec.cls("polygon:far-from-origin")
         V = c["V"]
         cls = cs.ConvexPolygon if (c["convex"] and rng.random() < 0.4) else cs.Polygon
         try:
